@@ -15,7 +15,7 @@ pub const FAULT_CLASSES: &[&str] = &[
     "ArithmeticOperatorNonInteger", "IndexingNonArray", "IndexingWithNonInteger", "UndefinedType", "NotAType",
     "RedeclarationAsType", "RedeclarationAsProcedure", "RedeclarationAsParameter", "RedeclarationAsVariable",
     "MustBeAReferenceParameter", "MainIsNotAProcedure", "MainMustNotHaveParameters", "MissingTrailingSemic", "MissingClosing",
-    "UnaryMinusNonInteger", "AssignmentLevels", "UndefinedVariableNested", "NotAVariableNested",
+    "UnaryMinusNonInteger", "AssignmentLevels", "UndefinedVariableNested", "NotAVariableNested", "UndefinedVariableInArgs",
 ];
 
 /// Inject one violation of rule `class` into a well-typed program.  Returns the new token list and the
@@ -73,6 +73,9 @@ pub fn inject(rng: &mut Rng, prog: &Prog, class: &str) -> Option<(Vec<Tok>, usiz
             let at = w.iter().position(|t| *t == "exit").unwrap();
             Some((w.iter().map(|s| s.to_string()).collect(), at, at + 1, "NotAVariable"))
         }
+        "UndefinedVariableInArgs" if !shadowed("setPixel") => {
+            Some((vec!["setPixel", "(", "1", ",", "undefv", ",", "3", ")", ";"].iter().map(|s| s.to_string()).collect(), 4, 5, "UndefinedVariable"))
+        }
         "UndefinedProcedure" => Some((vec!["undefp", "(", ")", ";"].iter().map(|s| s.to_string()).collect(), 0, 4, class)),
         "NotAVariable" if !shadowed("printi") => Some((vec!["printi", ":=", "1", ";"].iter().map(|s| s.to_string()).collect(), 0, 1, class)),
         "CallOfNoneProcedure" if !shadowed("int") => Some((vec!["int", "(", ")", ";"].iter().map(|s| s.to_string()).collect(), 0, 4, class)),
@@ -105,7 +108,12 @@ pub fn inject(rng: &mut Rng, prog: &Prog, class: &str) -> Option<(Vec<Tok>, usiz
         if (class == "MissingTrailingSemic" || class == "MissingClosing") && shadowed("exit") {
             return None;
         }
-        let ins: Vec<Tok> = tpl.iter().map(|t| tok(t, decl_k)).collect();
+        let mut ins: Vec<Tok> = tpl.iter().map(|t| tok(t, decl_k)).collect();
+        if class == "UndefinedVariableInArgs" {
+            for t in ins.iter_mut().skip(2) {
+                t.gap = "in-args";
+            }
+        }
         let at = close;
         toks.splice(at..at, ins);
         return Some((toks, at + lo, at + hi, kind.to_string()));
@@ -152,7 +160,12 @@ pub fn gen_c03(rng: &mut Rng, n: usize, out: &mut Vec<String>) {
         for _ in 0..3 {
             let class = *rng.pick(FAULT_CLASSES);
             if let Some((toks, clo, chi, kind)) = inject(rng, &prog, class) {
-                let lo = Layout { comment_pct: 0, comment_gaps: None, compact: rng.chance(1, 2) };
+                let lo = if class == "UndefinedVariableInArgs" {
+                    // comment lines between the arguments and the commas of every call
+                    Layout { comment_pct: 35, comment_gaps: Some(&["in-args"]), compact: rng.chance(1, 2) }
+                } else {
+                    Layout { comment_pct: 0, comment_gaps: None, compact: rng.chance(1, 2) }
+                };
                 let (t, offs, _) = gen_prog::layout(rng, &toks, &lo);
                 let blo = offs[clo];
                 let bhi = offs[chi - 1] + toks[chi - 1].text.len();
